@@ -330,6 +330,19 @@ def _blocks(run, M):
             continue
         st = ks.stores[0]
         loops = {T.show(l.var): l for l in ks.loops}
+        # early exits: `continue` only skips one candidate; a `break` also skips every later candidate of that loop, which is right only
+        # for a condition that stays true for all of them: n = (i - b)//S decreases as b grows, so `n < 0` qualifies and `n >= N` does not
+        for bconds, bnode in ks.breaks:
+            last = bconds[-1] if bconds else None
+            la = last.single_atom() if isinstance(last, T.Poly) else None
+            fine = False
+            if la is not None and la[0] == "app" and la[1] == "pos":
+                inner = T.neg(T.dec(la[2][0]))           # pos(-n): n < 0
+                ia = inner.single_atom() if isinstance(inner, T.Poly) else None
+                fine = ia is not None and ia[0] == "app" and ia[1] == "floordiv"
+            run.check(fine, "X6", lab + " early exit", kf.loc(bnode), "a break is taken only when the block number has dropped below 0 (it keeps decreasing)",
+                      "%s leaves a block-offset loop with `break` under [%s]: later offsets of that loop can still hit valid blocks (the block number decreases with the "
+                      "offset, so only `n < 0` is final), their contributions are lost" % (lab, T.show(last, 120) if last is not None else "?"), stmt="X6:break:" + lab)
         run.check(st.accumulate, "X6", lab + " accumulate", kf.loc(st.node), "overlapping blocks accumulate with +=",
                   "%s stores with `=`: overlapping blocks overwrite each other instead of summing (`%s`)" % (lab, unparse(st.node)), stmt="X6:acc:" + lab)
         src = [a for a in T.apps(st.value, "getitem") if T.dec(a[2][0]) == T.sym("input")] if isinstance(st.value, T.Poly) else []
